@@ -131,6 +131,7 @@ def run(tier, rep, ds, salt=0):
     cases += [gen.gen_case(base + 500000 + i, gen.DEFAULT_PROFILE, dirsize=ds, p_fail=0.5, p_clean=0.0, versions_pool=gen.VERSION_POOL,
                            min_builds=3, max_builds=6) for i in range(n_rand - n_rand // 2)]
     cases += gen.gen_scenario_cases(core.seed() * 31 + 202 + salt, per_fam, ds, gen.SCENARIOS + [gen.scen_cache_subdir])
+    cases = [gen.rename_components(c, {'b': 'ab'}) if i % 3 == 1 else c for i, c in enumerate(cases)]
     caps_per_case = core.pmap(_worker, cases)
     caps = []
     problems = []
